@@ -24,6 +24,19 @@ def enc_flags(objs):
     return enc_nats([int(bool(getattr(o, "forever", False))) for o in objs])
 
 
+def poison(objs, rng):
+    """overwrite every _s_successors with arbitrary stale content: the property says 'whatever it
+    was before'; the model is given what is observed afterwards"""
+    have = [o for o in objs if hasattr(o, "_s_successors")]
+    for o in have:
+        o._s_successors = set(rng.sample(have, min(len(have), rng.choice([0, 0, 1, 2]))))
+
+
+def case_rng(case):
+    import random
+    return random.Random(int(core.digest(case), 16))
+
+
 def members(S):
     return [j.hid for j in S.jobs]
 
@@ -131,8 +144,8 @@ class C17(Prop):
             "__hash__ values x every non-empty set of start jobs; random DAG trees to 12 jobs with forever flags, "
             "nested schedulers as members, a few requirements that leave the scheduler and (rarely) a planted cycle; "
             "edit sequences (toggle requirement, add/remove member, toggle forever) with all queries observed "
-            "after every edit, the first successors()/exit_jobs() of each observation run with "
-            "compute_backlinks=False on the stale links. Observed: predecessors, successors, _s_successors after "
+            "after every edit, _s_successors overwritten with arbitrary stale content before every call that recomputes it, "
+            "and successors()/successors_downstream()/exit_jobs() also run with compute_backlinks=False on stale links. Observed: predecessors, successors, _s_successors after "
             "_backlinks, predecessors_upstream, successors_downstream, entry_jobs, exit_jobs (both discard_forever "
             "values), iterate_jobs (both scan_schedulers values). non-trivial = at least 2 requirement edges inside "
             "the scheduler; distinct = distinct (tree, flags, edge set, edits)")
@@ -228,7 +241,7 @@ class C17(Prop):
                 o.forever = not o.forever
 
     @staticmethod
-    def observe(objs, S, starts_list, queries):
+    def observe(objs, S, starts_list, queries, rng):
         """runs every query of C17 on the implementation; appends the model queries"""
         items = []
 
@@ -256,18 +269,13 @@ class C17(Prop):
         fl = enc_flags(objs)
         out = [x.hid for x in S.exit_jobs(compute_backlinks=False)]
         add("exit_jobs(compute_backlinks=False)", out, [26] + ems + rq + sc + fl + [1, 0], ordered=True)
-        # 2. _backlinks itself
-        sc = enc_sc(objs)
-        S._backlinks()
-        after = [sorted(sc_ids(o)) for o in objs]
-        sc_after = enc_sc(objs)
-        add("_backlinks", after, [21] + ems + rq + sc, table=True, sq=[32] + ems + rq + sc_after)
-        # 3. the queries proper
+        # 2. the queries proper, each on freshly spoilt links
         for st in starts_list:
             est = enc_nats(st)
             sobj = [objs[i] for i in st]
             out = [x.hid for x in S.predecessors(*sobj)]
             add("predecessors", out, [20] + ems + rq + est, starts=st, sq=[30] + ems + rq + est + enc_nats(out))
+            poison(objs, rng)
             sc = enc_sc(objs)
             out = [x.hid for x in S.successors(*sobj)]
             add("successors", out, [22] + ems + rq + sc + [1] + est, starts=st,
@@ -275,6 +283,7 @@ class C17(Prop):
             out = [x.hid for x in S.predecessors_upstream(*sobj)]
             add("predecessors_upstream", out, [23] + ems + rq + est, flag=True, starts=st,
                 sq=[33] + ems + rq + est + enc_nats(out))
+            poison(objs, rng)
             sc = enc_sc(objs)
             out = [x.hid for x in S.successors_downstream(*sobj)]
             add("successors_downstream", out, [24] + ems + rq + sc + [1] + est, flag=True, starts=st,
@@ -282,6 +291,7 @@ class C17(Prop):
         out = [x.hid for x in S.entry_jobs()]
         add("entry_jobs", out, [25] + ems + rq, ordered=True, sq=[35] + ems + rq + enc_nats(out))
         for d in (True, False):
+            poison(objs, rng)
             sc = enc_sc(objs)
             out = [x.hid for x in S.exit_jobs(discard_forever=d)]
             add("exit_jobs(discard_forever=%s)" % d, out, [26] + ems + rq + sc + fl + [int(d), 1], ordered=True,
@@ -291,6 +301,13 @@ class C17(Prop):
             out = [x.hid for x in S.iterate_jobs(scan_schedulers=scan)]
             add("iterate_jobs(scan_schedulers=%s)" % scan, out, [27] + tree + [int(scan)], ordered=True,
                 sq=[37] + tree + [int(scan)] + enc_nats(out))
+        # 3. _backlinks itself
+        poison(objs, rng)
+        sc = enc_sc(objs)
+        S._backlinks()
+        after = [sorted(sc_ids(o)) for o in objs]
+        sc_after = enc_sc(objs)
+        add("_backlinks", after, [21] + ems + rq + sc, table=True, sq=[32] + ems + rq + sc_after)
         return {"ms": ms, "items": items}
 
     def evaluate(self, cases):
@@ -301,10 +318,11 @@ class C17(Prop):
             try:
                 objs = build(c["recipe"])
                 S = objs[c["sched"]]
-                o["states"].append(self.observe(objs, S, c["starts"], queries))
+                rng = case_rng(c)
+                o["states"].append(self.observe(objs, S, c["starts"], queries, rng))
                 for ed in c.get("edits") or []:
                     self.apply_edit(objs, S, ed)
-                    o["states"].append(self.observe(objs, S, c["starts"], queries))
+                    o["states"].append(self.observe(objs, S, c["starts"], queries, rng))
             except Exception as e:       # noqa
                 o["exc"] = repr(e)
             obs.append(o)
@@ -499,7 +517,9 @@ class C18(Prop):
             try:
                 objs = build(c["recipe"])
                 S = objs[c["sched"]]
+                rng = case_rng(c)
                 for op in c["ops"]:
+                    poison(objs, rng)
                     ms = members(S)
                     ems, rq, sc = enc_nats(ms), enc_rmap(objs), enc_sc(objs)
                     st = {"op": op, "ms": ms, "raised": None}
